@@ -31,7 +31,11 @@ class Vocab:
         # Duration / Delay carry group rules only where the schema marks them topLevelTagGroup (8.2.0 on); before that they
         # are ordinary value tags and belong to the vocabulary like any other
         toplevel0 = {t["name"] for t in f.real_tags() if "topLevelTagGroup" in t["attrs"]}
-        special = SPECIAL_NAMES - ({"Duration", "Delay"} - toplevel0)
+        # (they are NOT drawn as ordinary vocabulary all the same: the temporal checks find Delay / Duration by NAME under every
+        #  schema - observation O12 in DESIGN.md - so a randomly placed old-schema Delay would blur single-rule cases; the old-schema
+        #  reading is checked by a directed family in c01 instead)
+        special = set(SPECIAL_NAMES)
+        self.plain_duration_delay = not ({"Duration", "Delay"} <= toplevel0) and any(t["name"] == "Duration" for t in f.real_tags())
         for t in f.real_tags():
             if t["name"] in special or any(a in t["inh"] for a in SPECIAL_ATTRS):
                 continue
